@@ -131,6 +131,20 @@ static void boundaries(Decomp &D) {
             j = N; p = D.l;
         }
     }
+    // sparse supports: the polynomial as a whole is an input too. One non-zero coefficient at every position in turn (N up to
+    // 1024; a stride above), the zero polynomial, and random supports of every density 2^-1 .. 2^-10 (test vectors, monomials,
+    // trivial samples look like this)
+    VH_OP("tGswTorus32PolynomialDecompH:sparse-supports:l=%d:Bgbit=%d", D.l, D.Bgbit);
+    { int step = N <= 1024 ? 1 : N / 1024;
+      for (int j = 0; j < N; j += step) { uint32_t v = (j & 3) == 0 ? pool[rng.below(pool.size())] : rng.u32(); if (!v) v = 1;
+          for (int q = 0; q < N; q++) { vals[q] = 0; D.in->coefsT[q] = 0; } vals[j] = v; D.in->coefsT[j] = (int32_t) v;
+          tGswTorus32PolynomialDecompH(D.res, D.in, D.tg); check_poly(D, vals, "tGswTorus32PolynomialDecompH(one non-zero coefficient)"); }
+      for (int q = 0; q < N; q++) { vals[q] = 0; D.in->coefsT[q] = 0; }
+      tGswTorus32PolynomialDecompH(D.res, D.in, D.tg); check_poly(D, vals, "tGswTorus32PolynomialDecompH(zero polynomial)");
+      for (int dens = 1; dens <= 10; dens++) for (int t = 0; t < 4; t++) {
+          for (int q = 0; q < N; q++) { uint32_t v = rng.below(1u << dens) == 0 ? (rng.coin() ? rng.u32() : pool[rng.below(pool.size())]) : 0; vals[q] = v; D.in->coefsT[q] = (int32_t) v; }
+          tGswTorus32PolynomialDecompH(D.res, D.in, D.tg); check_poly(D, vals, "tGswTorus32PolynomialDecompH(sparse support)"); }
+      char c2[96]; snprintf(c2, sizeof c2, "sparse-supports:%s:N=%d", lname(D.l, D.Bgbit).c_str(), N); out.cell(c2, N / step + 41); }
     char cell[96]; snprintf(cell, sizeof cell, "boundaries:%s", lname(D.l, D.Bgbit).c_str()); out.cell(cell, pool.size());
 }
 
